@@ -324,7 +324,10 @@ class LSML_Supervised(_BaseLSML, TransformerMixin):
     else:
       self.n_constraints = n_constraints
     # Avoid test get_params from failing (all params passed sholud be set)
-    self.num_constraints = 'deprecated'
+    # the sentinel is stored as given: scikit-learn's clone compares
+    # constructor parameters by identity (e.g. after unpickling)
+    self.num_constraints = (num_constraints if num_constraints == 'deprecated'
+                            else 'deprecated')
     self.weights = weights
 
   def fit(self, X, y):
